@@ -182,7 +182,6 @@ void Search::go()
     VERIF_POINT(GO_ENTER, this, nullptr, nullptr);
     init_search();
     VERIF_POINT(GO_INIT_DONE, this, nullptr, nullptr);
-    stop_search = false;
     VERIF_POINT(GO_RESET_DONE, this, nullptr, nullptr);
     _start_time = std::chrono::steady_clock::now();
 
